@@ -156,8 +156,10 @@ def check(prop, tier, seed):
                     prog.append(["delete", rng.randint(1, nalive + nfree)])
                 elif x < 0.84:
                     prog.append(["aliveown"])
-                elif x < 0.90:
+                elif x < 0.87:
                     prog.append(["join"])
+                elif x < 0.90:
+                    prog.append(["pjoin"])
                 elif x < 0.97:
                     tag += 1
                     prog.append(["lazy", t * 100000 + tag])
@@ -168,7 +170,7 @@ def check(prop, tier, seed):
                     tag += d + 1
             progs.append(prog)
         sc = {"tid": tid, "mode": "free", "alive_ids": alive, "free_seq": free, "progs": progs, "schedule": [],
-              "post": rng.choice([0, 0, 1, 2, 3])}
+              "post": rng.choice([0, 0, 1, 2, 3, 102, 103])}
         frames = []
         for _ in range(rng.randint(0, 2)):
             fp = []
@@ -188,7 +190,7 @@ def check(prop, tier, seed):
                         tag += 1
                         prog.append(["lazy", 900000 + tag])
                 fp.append(prog)
-            frames.append({"progs": fp, "schedule": [], "post": rng.choice([0, 0, 1, 3])})
+            frames.append({"progs": fp, "schedule": [], "post": rng.choice([0, 0, 1, 3, 101, 102])})
         if frames:
             sc["frames"] = frames
         scripts.append(sc)
